@@ -546,6 +546,18 @@ Proof.
   destruct et as [c p d| | | |k|]; try lia; [destruct p; lia|destruct k; lia].
 Qed.
 
+(* at most 2^25 new elements, whatever the element type *)
+Corollary dec_top_array_new_elems_bounded : forall sizes fuel env c k et prev rs rs' elems,
+  dec sizes fuel env (EArr c k et) prev rs = Ok (rs', WArr elems) ->
+  r_alloc rs <= record_alloc_limit ->
+  N.of_nat (length elems) <= N.of_nat (length (prev_elems prev)) + record_alloc_limit.
+Proof.
+  intros sizes fuel env c k et prev rs rs' elems H HL.
+  pose proof (dec_top_array_len_bounded _ _ _ _ _ _ _ _ _ _ H HL) as B.
+  pose proof (elem_size_pos sizes et) as P. nia.
+Qed.
+Print Assumptions dec_top_array_new_elems_bounded.
+
 Lemma reader_next_frame_keeps : forall r r1, reader_next_frame r = inr r1 ->
   rd_tree r1 = rd_tree r /\ rd_rec r1 = rd_rec r.
 Proof.
@@ -765,3 +777,135 @@ Proof.
   intros k. cbn [wire_size]. f_equal. induction k as [|k IH]; [reflexivity|].
   cbn [repeat fold_right]. rewrite IH. cbn [wire_size fold_right]. lia.
 Qed.
+
+(* ================================================================== extra: nesting depth *)
+(* The nesting depth of the decoded wire tree is bounded by the fuel: one fuel unit per decoder
+   level; a full dictionary struct is two wire levels (WDictFull (WStruct ..)) for one decoder.
+   With (4) this is the "no hang" side of one record: [dec] is structurally recursive on [fuel],
+   every inner loop runs over a list of the tree / previous value or a checked counter. *)
+Lemma fold_max_le : forall A (g : A -> nat) l m, Forall (fun x => (g x <= m)%nat) l ->
+  (fold_right (fun x r => Nat.max (g x) r) 0%nat l <= m)%nat.
+Proof.
+  intros A g l m H. induction H as [|x l Hx _ IH]; cbn [fold_right]; [lia|]. apply Nat.max_lub; assumption.
+Qed.
+
+Definition hopt (f : option wire) : nat := match f with Some x => height x | None => 0%nat end.
+Definition hkv (kv : wire * wire) : nat := Nat.max (height (fst kv)) (height (snd kv)).
+
+Lemma Forall_snoc : forall A (P : A -> Prop) l x, Forall P l -> P x -> Forall P (l ++ [x]).
+Proof. intros. apply Forall_app. split; [assumption|constructor; [assumption|constructor]]. Qed.
+
+Section HeightLoops.
+  Variable D : renv -> etree -> rnode -> rst -> res (rst * wire).
+  Variable m : nat.
+  Hypothesis HD : forall env t p s s' w, D env t p s = Ok (s', w) -> (height w <= m)%nat.
+
+  Lemma fields_h : forall env' prev mask present fts opts i oi pf st acc st' fs,
+    dec_fields D env' prev mask present i oi fts opts pf st acc = Ok (st', fs) ->
+    Forall (fun f => (hopt f <= m)%nat) acc -> Forall (fun f => (hopt f <= m)%nat) fs.
+  Proof.
+    intros env' prev mask present. induction fts as [|ft fts IH]; intros opts i oi pf st acc st' fs H HA.
+    - rewrite dec_fields_nil in H by (left; reflexivity). inversion H; subst. exact HA.
+    - destruct opts as [|o opts].
+      + rewrite dec_fields_nil in H by (right; reflexivity). inversion H; subst. exact HA.
+      + rewrite dec_fields_cons in H. cbv zeta in H.
+        destruct (N.testbit mask i && (negb o || N.testbit present oi)).
+        * destruct (D env' (resolve env' ft) _ st) as [[st1 w]|e] eqn:E; [|discriminate].
+          destruct (negb o && is_nil_ref w); [discriminate|].
+          eapply IH; [exact H|]. apply Forall_snoc; [exact HA|]. cbn [hopt]. eapply HD; exact E.
+        * eapply IH; [exact H|]. apply Forall_snoc; [exact HA|]. cbn [hopt]. lia.
+  Qed.
+
+  Lemma body_h : forall prev c fc opts fts env' st st' w,
+    dec_body D prev c fc opts fts env' st = Ok (st', w) -> (height w <= S m)%nat.
+  Proof.
+    intros prev c fc opts fts env' st st' w H. unfold dec_body in H.
+    destruct (br_read_bits (rc_br (rget st c)) (N.to_nat fc)) as [mask r1].
+    destruct (br_read_bits r1 (opt_count opts)) as [present r2].
+    destruct (dec_fields D env' prev mask present 0 0 fts opts (prev_fields prev) (rset_br st c r2) [])
+      as [[st1 fs]|e] eqn:EF; [|discriminate].
+    destruct (col_err st1 c); [discriminate|]. inversion H; subst.
+    cbn [height]. apply le_n_S. apply (fold_max_le _ hopt).
+    apply (fields_h _ _ _ _ _ _ _ _ _ _ _ _ _ EF). constructor.
+  Qed.
+
+  Lemma arr_h : forall env' et c n k pe st acc st' w,
+    run (dec_arr_step D env' et c) n (k, pe, st, acc) = inr (Ok (st', w)) ->
+    Forall (fun x => (height x <= m)%nat) acc -> (height w <= S m)%nat.
+  Proof.
+    intros env' et c. induction n as [|n IH]; intros k pe st acc st' w H HA; [discriminate|].
+    rewrite run_S in H. unfold dec_arr_step at 1 in H.
+    destruct (k =? 0).
+    - destruct (col_err st c); inversion H; subst. cbn [height]. apply le_n_S. apply (fold_max_le _ height).
+      apply Forall_rev. exact HA.
+    - destruct (D env' (resolve env' et) (hd RNil pe) st) as [[st1 w1]|e] eqn:E; [|discriminate].
+      eapply IH; [exact H|]. constructor; [eapply HD; exact E|exact HA].
+  Qed.
+
+  Lemma vals_h : forall env' vt changed pk i st acc st' w,
+    dec_vals D env' vt changed i pk st acc = Ok (st', w) ->
+    Forall (fun x => (height x <= m)%nat) acc -> (height w <= S m)%nat.
+  Proof.
+    intros env' vt changed. induction pk as [|[pkk pv] pk IH]; intros i st acc st' w H HA; cbn [dec_vals] in H.
+    - inversion H; subst. cbn [height]. apply le_n_S. apply (fold_max_le _ height). exact HA.
+    - destruct ((i <? 64) && N.testbit changed i).
+      + destruct (D env' (resolve env' vt) pv st) as [[st1 w1]|e] eqn:E; [|discriminate].
+        eapply IH; [exact H|]. apply Forall_snoc; [exact HA|eapply HD; exact E].
+      + eapply IH; eassumption.
+  Qed.
+
+  Lemma full_h : forall env' kt vt k pk st acc st' w,
+    dec_full D env' kt vt k pk st acc = Ok (st', w) ->
+    Forall (fun kv => (hkv kv <= m)%nat) acc -> (height w <= S m)%nat.
+  Proof.
+    intros env' kt vt. induction k as [|k IH]; intros pk st acc st' w H HA; cbn [dec_full] in H.
+    - inversion H; subst. cbn [height]. apply le_n_S. apply (fold_max_le _ hkv). exact HA.
+    - destruct (hd (RNil, RNil) pk) as [pkk pv].
+      destruct (D env' (resolve env' kt) pkk st) as [[st1 wk]|e] eqn:E1; [|discriminate].
+      destruct (D env' (resolve env' vt) pv st1) as [[st2 wv]|e] eqn:E2; [|discriminate].
+      eapply IH; [exact H|]. apply Forall_snoc; [exact HA|]. unfold hkv. cbn [fst snd].
+      apply Nat.max_lub; eapply HD; eassumption.
+  Qed.
+End HeightLoops.
+
+Theorem dec_depth_bounded : forall sizes fuel env t prev rs rs' a,
+  dec sizes fuel env t prev rs = Ok (rs', a) -> (height a <= 2 * fuel)%nat.
+Proof.
+  intros sizes. induction fuel as [|f IH]; intros env t prev st st' w H; [discriminate|].
+  destruct t as [c p d|c sid oneof d fc opts fts|c k et|c mid kt vt|k|].
+  - rewrite dec_eq_prim in H. apply dec_prim_leaf in H. destruct w; try discriminate; cbn [height]; lia.
+  - destruct oneof.
+    + rewrite dec_eq_oneof in H.
+      destruct (br_read_bits (rc_br (rget st c)) (oneof_bits fc)) as [tag r1]. cbv zeta in H.
+      destruct (fc + 1 <=? tag); [discriminate|]. destruct (br_err r1); [discriminate|].
+      destruct (tag =? 0); [inversion H; subst; cbn [height]; lia|].
+      destruct (dec sizes f _ _ _ (rset_br st c r1)) as [[st1 w1]|e] eqn:E; [|discriminate].
+      inversion H; subst. cbn [height]. apply IH in E. lia.
+    + destruct d as [dn|].
+      * rewrite dec_eq_dict in H.
+        destruct (br_read_bits (rc_br (rget st c)) 1) as [flag r1].
+        destruct (flag =? 0).
+        -- destruct (br_read_uvc r1) as [ref r2]. cbv zeta in H.
+           destruct (r_tl (rset_br st c r2) dn <=? ref); [discriminate|].
+           destruct (br_err r2); [discriminate|]. inversion H; subst. cbn [height]. lia.
+        -- cbv zeta in H.
+           destruct (dec_body (dec sizes f) prev c fc opts fts _ (rset_br st c r1)) as [[st1 w1]|e] eqn:E; [|discriminate].
+           inversion H; subst. cbn [height]. apply (body_h _ (2 * f) (IH)) in E. lia.
+      * rewrite dec_eq_struct in H. apply (body_h _ (2 * f) (IH)) in H. lia.
+  - rewrite dec_eq_arr in H.
+    destruct (br_read_uvc (rc_br (rget st c))) as [n r1]. cbv zeta in H.
+    match type of H with (if ?b then _ else _) = _ => destruct b; [discriminate|] end.
+    match type of H with match iter_pow _ ?step ?s with _ => _ end = _ =>
+      destruct (iter_pow loop_k step s) as [s'|r] eqn:EI; [discriminate|] end.
+    subst r. rewrite iter_pow_run in EI. apply (arr_h _ (2 * f) (IH)) in EI; [lia|constructor].
+  - rewrite dec_eq_map in H. cbv zeta in H.
+    destruct (leb_dec (rc_bytes (rget st c))) as [[hdr rest]|]; [|discriminate].
+    destruct (hdr =? 0); [inversion H; subst; cbn [height fold_right]; lia|].
+    destruct (N.even hdr).
+    + apply (vals_h _ (2 * f) (IH)) in H; [lia|constructor].
+    + destruct (multimap_limit <=? hdr / 2); [discriminate|].
+      apply (full_h _ (2 * f) (IH)) in H; [lia|constructor].
+  - discriminate.
+  - discriminate.
+Qed.
+Print Assumptions dec_depth_bounded.
